@@ -110,6 +110,9 @@ func genOptRaw(r *rand.Rand, ns *nameSpace, nsPrefix string, allowReq bool) *Opt
 	default:
 		o.Kind = "func1"
 		o.VType = pick(r, []string{"string", "string", "int"})
+		if chance(r, 0.3) {
+			o.Param = pick(r, []string{"slice", "map", "ptr"}) // func([]T), func(map[string]T), func(*T)
+		}
 	}
 	if (isIntType(o.VType) || o.KType != "") && o.Kind != "flag" {
 		o.Base = pick(r, intBases)
@@ -157,7 +160,7 @@ func genOptRaw(r *rand.Rand, ns *nameSpace, nsPrefix string, allowReq bool) *Opt
 	if canArg && chance(r, 0.06) {
 		o.NoUnquote = true
 	}
-	if (o.Kind == "func0" || o.Kind == "func1") && chance(r, 0.3) {
+	if (o.Kind == "func0" || o.Kind == "func1") && o.Param == "" && chance(r, 0.3) {
 		v := ""
 		if o.Kind == "func1" {
 			v = validValue(r, o)
@@ -289,7 +292,7 @@ func validValue(r *rand.Rand, o *OptNode) string {
 			}
 		}
 	}
-	if o.Kind == "map" {
+	if o.Kind == "map" || o.Param == "map" {
 		if o.KType != "" { // numerals valid in every base, now and then one that is not (or not a numeral at all)
 			k := pick(r, []string{"1", "0", "10", "11", "101", "1", "10", "7", "9", "12", "-1", "+1", "010", "k", ""})
 			return k + ":" + v
